@@ -100,7 +100,15 @@ def build(uid, fields, kinds, combo, placement, decl_idx, falsy=False, sub_entry
             h2 = nested_class(uid, NESTED_DECLS[decl_idx[i] % len(NESTED_DECLS)])
             fs.append([f, [kd, h2]])
             x.append([f, nested_value(uid, kd, falsy, k + i)])
-    if sub_entry is not None:
+    if sub_entry == "all":
+        # every nested field has its own '<field>._mapper' entry, with pairwise different contents
+        j = 0
+        for f, kd in zip(fields, kinds):
+            if kd is not None:
+                j += 1
+                entries.append([f + SUFFIX, ["sub", [["p", ["key", "pp%d" % j]], ["u_x", ["key", "ux%d" % j]],
+                                                      ["q", ["key", "qq%d" % j]]]]])
+    elif sub_entry is not None:
         # a '<name>._mapper' entry of the outer dict for the first nested field, keyed by the field
         # name ("field") or by the key the field is renamed to ("key")
         for f, kd, t in zip(fields, kinds, combo):
@@ -169,7 +177,8 @@ def sibling_cases(rnd, tier):
             pls = PLACEMENTS if tier != "quick" else [PLACEMENTS[k % len(PLACEMENTS)],
                                                       PLACEMENTS[(k // len(PLACEMENTS) + 3) % len(PLACEMENTS)]]
             for pl in dict.fromkeys(pls):
-                c = build(uid, f2, kinds, combo, pl, pairs2[k % len(pairs2)], k=k)
+                se = "all" if (k % 4 == 1 and all(kd is not None for kd in kinds)) else None
+                c = build(uid, f2, kinds, combo, pl, pairs2[k % len(pairs2)], sub_entry=se, k=k)
                 c["entry"] = "function" if k % 3 == 0 else "wrapper"
                 c["stream"] = "sibling-lattice"
                 cases.append(c)
@@ -184,7 +193,7 @@ def sibling_cases(rnd, tier):
         kinds = rnd.choice(kinds3)
         combo = rnd.choice(maps3)
         pl = rnd.choice(PLACEMENTS)
-        se = rnd.choice([None, None, None, "field", "key"])
+        se = rnd.choice([None, None, None, "field", "key", "all"])
         c = build(uid, f3, kinds, combo, pl, rnd.choice(pairs3), sub_entry=se, k=k)
         c["entry"] = rnd.choice(["wrapper", "function"])
         c["stream"] = "sibling-lattice"
